@@ -1,8 +1,447 @@
-//! C19 correspondence streams (stub).
-use crate::util::Opts;
-use std::io::Write;
+//! C19: ROM validation.
+//!
+//! `c19.hdr` (in-process): a `Header` is made from any 80 bytes by transmute (it is `repr(C, packed)`, all fields u8).
+//!   line: c19.hdr hdr=<80 bytes hex> | valid=<0|1> banks=<n> rombytes=<n> rambytes=<n> cart=<0|1|3|n|panic> pmsg=<msg>
+//!   `cart` identifies the state `create_cart_state` built by its behaviour (write 0x7f to 0x2000, read the bank:
+//!   NullCartState 1, MBC1 0x1f, MBC3 0x7f); its panic is a plain Rust panic, caught with catch_unwind.
+//!   exhaustive over the checksum byte x header fillings, all 256 type bytes, all ROM/RAM code bytes
+//!   (thorough: all 256x256 ROM/RAM code pairs).
+//!
+//! `c19.file`: the REAL binary (/verif/.work/target/bin/release/gb-dynarec, built by the runner from /repo) on
+//!   generated files under /verif/.work/c19/.
+//!   line: c19.file kind=<file|missing> hdr=<hex> len=<n> pb=<probe bank> | out=<stdout prefix hex> err=<stderr prefix hex> status=<alive|exit:N|sig:N>
+//!   File = zeros, header at 0x100 (entry: NOP; JP 0x150), probe at 0x150: select ROM bank `pb` with the
+//!   standard MBC1 / MBC3 register writes, LD A,(0x7FFF), print A, 'K', '\n' on the serial port, loop forever.
+//!   'Z' at offset 0x4000*pb+0x3FFF = the last byte of the last declared (reachable) bank.  Files are sparse
+//!   (set_len) and removed after each run.  The run is observed until the terminal marker ("K\n", or the
+//!   fallback line after a rejection) plus a grace period, or death, or the deadline; then killed.
+use crate::cart::{CartState, Header};
+use crate::util::{hex, Opts, Rng};
+use std::io::{Read, Seek, SeekFrom, Write};
+use std::os::unix::process::ExitStatusExt;
+use std::path::PathBuf;
+use std::sync::atomic::{AtomicUsize, Ordering};
+use std::sync::{Arc, Mutex};
+use std::time::{Duration, Instant};
 
-pub fn run(sub: &str, _opts: &Opts, _w: &mut dyn Write) {
-  eprintln!("stream c19.{} not implemented", sub);
-  std::process::exit(2);
+const OFF_TITLE: usize = 0x34;
+const OFF_TYPE: usize = 0x47;
+const OFF_ROM: usize = 0x48;
+const OFF_RAM: usize = 0x49;
+const OFF_CHK: usize = 0x4d;
+
+fn header_from(bytes: [u8; 80]) -> Header {
+  unsafe { std::mem::transmute::<[u8; 80], Header>(bytes) }
+}
+
+fn unhex(s: &str) -> Vec<u8> {
+  let b = s.as_bytes();
+  (0..b.len() / 2).map(|i| u8::from_str_radix(&s[2 * i..2 * i + 2], 16).unwrap_or(0)).collect()
+}
+
+/// the checksum byte that makes the header valid (test-input generation only; the verdict is the Lean side's)
+fn good_checksum(h: &[u8; 80]) -> u8 {
+  let mut x: u8 = 0;
+  for i in 0x34..0x4d { x = x.wrapping_sub(h[i]).wrapping_sub(1); }
+  x
+}
+
+fn random_header(rng: &mut Rng) -> [u8; 80] {
+  let mut h = [0u8; 80];
+  for b in h.iter_mut() { *b = rng.u8(); }
+  h
+}
+
+// ---------------------------------------------------------------- c19.hdr
+
+fn hdr_line(bytes: [u8; 80], w: &mut dyn Write) {
+  let h = header_from(bytes);
+  let valid = h.valid_checksum();
+  let banks = h.get_rom_bank_count();
+  let romb = h.get_rom_size_bytes();
+  let ramb = h.get_ram_size_bytes();
+  let r = std::panic::catch_unwind(std::panic::AssertUnwindSafe(|| {
+    let mut st = h.create_cart_state();
+    st.write_rom(0x2000, 0x7f);
+    st.get_rom_bank()
+  }));
+  let (cart, pmsg) = match r {
+    Ok(1) => ("0".to_string(), "-".to_string()),
+    Ok(0x1f) => ("1".to_string(), "-".to_string()),
+    Ok(0x7f) => ("3".to_string(), "-".to_string()),
+    Ok(n) => (format!("{}", 1000 + n), "-".to_string()),
+    Err(p) => {
+      let m = if let Some(s) = p.downcast_ref::<&str>() { s.to_string() }
+              else if let Some(s) = p.downcast_ref::<String>() { s.clone() } else { "?".to_string() };
+      ("panic".to_string(), m.replace(' ', "_"))
+    }
+  };
+  writeln!(w, "c19.hdr hdr={} | valid={} banks={} rombytes={} rambytes={} cart={} pmsg={}",
+    hex(&bytes), valid as u8, banks, romb, ramb, cart, pmsg).unwrap();
+}
+
+fn run_hdr(opts: &Opts, w: &mut dyn Write) {
+  std::panic::set_hook(Box::new(|_| {})); // the expected panics of create_cart_state stay quiet
+  if let Some(line) = opts.get("replay-line") {
+    let hx = line.split_whitespace().find_map(|t| t.strip_prefix("hdr=")).unwrap_or("");
+    let v = unhex(hx);
+    if v.len() == 80 {
+      let mut b = [0u8; 80];
+      b.copy_from_slice(&v);
+      hdr_line(b, w);
+    }
+    return;
+  }
+  let mut rng = Rng::new(opts.seed);
+  // (1) every checksum byte x header fillings
+  let mut fillings: Vec<[u8; 80]> = vec![[0u8; 80], [0xffu8; 80]];
+  let mut ramp = [0u8; 80];
+  for (i, b) in ramp.iter_mut().enumerate() { *b = i as u8; }
+  fillings.push(ramp);
+  let nrand = if opts.thorough { 61 } else { 3 };
+  for _ in 0..nrand { fillings.push(random_header(&mut rng)); }
+  for f in fillings.iter() {
+    for c in 0..=255u8 {
+      let mut h = *f;
+      h[OFF_CHK] = c;
+      hdr_line(h, w);
+    }
+    // and every value of one checksummed byte with the checksum byte fixed (the sum moves instead)
+    for v in 0..=255u8 {
+      let mut h = *f;
+      h[OFF_TITLE + (v as usize % 11)] = v;
+      hdr_line(h, w);
+    }
+  }
+  // (2) every cartridge type byte, with a valid and with an invalid checksum
+  for t in 0..=255u8 {
+    let mut h = random_header(&mut rng);
+    h[OFF_TYPE] = t;
+    h[OFF_CHK] = good_checksum(&h);
+    hdr_line(h, w);
+    h[OFF_CHK] = h[OFF_CHK].wrapping_add(1 + rng.u8() % 255);
+    hdr_line(h, w);
+  }
+  // (3) ROM / RAM size codes: each of the 256 values of either byte; thorough: all 65 536 pairs
+  if opts.thorough {
+    let mut base = random_header(&mut rng);
+    for rc in 0..=255u8 { for ac in 0..=255u8 {
+      if ac == 0 { base = random_header(&mut rng); }
+      let mut h = base;
+      h[OFF_ROM] = rc; h[OFF_RAM] = ac;
+      h[OFF_CHK] = good_checksum(&h);
+      hdr_line(h, w);
+    }}
+  } else {
+    for c in 0..=255u8 {
+      let mut h = random_header(&mut rng);
+      h[OFF_ROM] = c;
+      h[OFF_CHK] = good_checksum(&h);
+      hdr_line(h, w);
+      let mut h = random_header(&mut rng);
+      h[OFF_RAM] = c;
+      h[OFF_CHK] = good_checksum(&h);
+      hdr_line(h, w);
+    }
+  }
+  let _ = std::panic::take_hook();
+}
+
+// ---------------------------------------------------------------- c19.file
+
+#[derive(Clone)]
+struct Case { missing: bool, hdr: [u8; 80], len: u64, pb: usize }
+
+/// bank counts of the cartridge-header standard (test-input generation only)
+fn std_banks(code: u8) -> Option<usize> {
+  match code { 0..=8 => Some(2usize << code), 0x52 => Some(72), 0x53 => Some(80), 0x54 => Some(96), _ => None }
+}
+
+/// the bank the probe selects: the last declared bank the controller's registers can reach
+fn probe_bank(typ: u8, romcode: u8) -> usize {
+  let banks = std_banks(romcode).unwrap_or(2);
+  match typ {
+    0x01..=0x03 | 0x0f..=0x13 => banks.min(128) - 1,
+    _ => 1,
+  }
+}
+
+fn probe_code(typ: u8, pb: usize) -> Vec<u8> {
+  let (lo, hi) = match typ {
+    0x01..=0x03 => ((pb & 0x1f) as u8, (pb >> 5) as u8), // MBC1: 5 low bits at 0x2000, 2 high bits at 0x4000
+    _ => ((pb & 0x7f) as u8, 0u8),                        // MBC3: 7 bits at 0x2000 (RAM bank 0 at 0x4000)
+  };
+  let mut c = vec![
+    0x3e, lo, 0xea, 0x00, 0x20,       // LD A,lo ; LD (0x2000),A
+    0x3e, hi, 0xea, 0x00, 0x40,       // LD A,hi ; LD (0x4000),A
+    0xfa, 0xff, 0x7f,                 // LD A,(0x7FFF)
+    0xe0, 0x01, 0x3e, 0x81, 0xe0, 0x02, // serial: the byte read
+    0x3e, 0x4b, 0xe0, 0x01, 0x3e, 0x81, 0xe0, 0x02, // 'K'
+    0x3e, 0x0a, 0xe0, 0x01, 0x3e, 0x81, 0xe0, 0x02, // '\n'
+  ];
+  let here = 0x150 + c.len();
+  c.extend_from_slice(&[0xc3, (here & 0xff) as u8, (here >> 8) as u8]); // JP self
+  c
+}
+
+fn ascii_title(rng: &mut Rng) -> [u8; 11] {
+  const CH: &[u8] = b"ABCDEFGHIJLMNOPQRSTUVWXYZ0123456789 -"; // no 'K' (the probe's marker), no quote
+  let n = 1 + rng.below(11) as usize;
+  let mut t = [0u8; 11];
+  for i in 0..n { t[i] = *rng.pick(CH); }
+  if t[n - 1] == b' ' { t[n - 1] = b'X'; }
+  t
+}
+
+/// a header for the file stream: entry NOP; JP 0x150, random bytes elsewhere, ASCII title, valid checksum
+fn file_header(rng: &mut Rng, typ: u8, romcode: u8, ramcode: u8) -> [u8; 80] {
+  let mut h = random_header(rng);
+  h[0..4].copy_from_slice(&[0x00, 0xc3, 0x50, 0x01]);
+  h[OFF_TITLE..OFF_TITLE + 11].copy_from_slice(&ascii_title(rng));
+  h[OFF_TYPE] = typ; h[OFF_ROM] = romcode; h[OFF_RAM] = ramcode;
+  h[OFF_CHK] = good_checksum(&h);
+  h
+}
+
+fn mk_case(hdr: [u8; 80], len: u64) -> Case {
+  Case { missing: false, hdr, len, pb: probe_bank(hdr[OFF_TYPE], hdr[OFF_ROM]) }
+}
+
+fn declared(romcode: u8) -> u64 { (std_banks(romcode).unwrap_or(2) * 0x4000) as u64 }
+
+fn lengths_around(d: u64) -> Vec<u64> {
+  let mut v = vec![0, 1, 0xff, 0x100, 0x101, 0x14d, 0x14e, 0x14f, 0x150, 0x151, 0x1000, 0x4000, 0x7fff, 0x8000,
+    d - 0x4000, d - 0x1001, d - 0x1000, d - 0xfff, d - 1, d, d + 1, d + 0x1000, d + 0x4000];
+  v.sort(); v.dedup();
+  v
+}
+
+fn gen_cases(opts: &Opts) -> Vec<Case> {
+  let mut rng = Rng::new(opts.seed ^ 0xc19);
+  let mut cs: Vec<Case> = Vec::new();
+  let t = opts.thorough;
+  // (a) a path that does not exist
+  cs.push(Case { missing: true, hdr: file_header(&mut rng, 1, 0, 0), len: 0, pb: 1 });
+  // (b) lengths around 0x100, 0x150 and the declared size, valid headers
+  let cfgs: &[(u8, u8)] = if t { &[(0x00, 0), (0x01, 0), (0x01, 1), (0x03, 5), (0x11, 2), (0x13, 6), (0x01, 0x52), (0x12, 0x54), (0x01, 8), (0x05, 1), (0x01, 0x60)] }
+                          else { &[(0x00, 0), (0x01, 1), (0x13, 2), (0x05, 1)] };
+  for &(typ, rc) in cfgs {
+    let ram = rng.u8() % 6;
+    let h = file_header(&mut rng, typ, rc, ram);
+    for l in lengths_around(declared(rc)) { cs.push(mk_case(h, l)); }
+  }
+  // (c) every checksum byte (one valid, 255 invalid) on complete files
+  let fills = if t { 6 } else { 1 };
+  for k in 0..fills {
+    let typ = [0x01u8, 0x00, 0x13, 0x02, 0x11, 0x19][k % 6];
+    let h = file_header(&mut rng, typ, (k % 3) as u8, 0);
+    for c in 0..=255u8 {
+      let mut h2 = h;
+      h2[OFF_CHK] = c;
+      cs.push(mk_case(h2, declared(h[OFF_ROM])));
+    }
+  }
+  // (d) every cartridge type byte, valid checksum, complete file (thorough: also one byte short, and 32 KiB of a 64 KiB ROM)
+  for typ in 0..=255u8 {
+    let ram = rng.u8() % 6;
+    let h = file_header(&mut rng, typ, 1, ram);
+    cs.push(mk_case(h, declared(1)));
+    if t {
+      cs.push(mk_case(h, declared(1) - 1));
+      cs.push(mk_case(h, 0x8000));
+    }
+  }
+  // (e) ROM size codes x lengths relative to the declared size
+  let codes: Vec<u8> = if t { (0..=255u8).collect() }
+                       else { vec![0, 1, 2, 3, 4, 5, 6, 7, 8, 0x52, 0x53, 0x54, 0x09, 0x51, 0x55, 0xff] };
+  for &rc in codes.iter() {
+    let types: &[u8] = if t { &[0x00, 0x01, 0x03, 0x11, 0x13] } else { &[0x01, 0x13] };
+    for &typ in types {
+      let ram = rng.u8() % 6;
+      let h = file_header(&mut rng, typ, rc, ram);
+      let d = declared(rc);
+      let mut ls = vec![d, d - 1, d - 0x1000, d - 0x4000, 0x8000];
+      if t { ls.push(d + 0x4000); ls.push(0x150); }
+      ls.sort(); ls.dedup();
+      for l in ls { cs.push(mk_case(h, l)); }
+    }
+  }
+  // (f) random headers with a valid checksum over the standard's codes, random lengths near the declared size
+  let n = if t { 600 } else { 40 };
+  for _ in 0..n {
+    let typ = *rng.pick(&[0x00u8, 0x01, 0x02, 0x03, 0x11, 0x12, 0x13, 0x0f, 0x10, 0x05, 0x19, 0x08, 0xfc, 0xff]);
+    let rc = *rng.pick(&[0u8, 1, 2, 3, 4, 5, 6, 7, 8, 0x52, 0x53, 0x54]);
+    let ram = rng.u8() % 8;
+    let mut h = file_header(&mut rng, typ, rc, ram);
+    if rng.chance(1, 8) { h[OFF_CHK] ^= 1 << rng.below(8); }
+    let d = declared(rc);
+    let l = match rng.below(6) {
+      0 => d, 1 => d - 1 - rng.below(0x2000), 2 => d + rng.below(0x2000), 3 => rng.below(0x200),
+      4 => (rng.below(d / 0x1000) + 1) * 0x1000, _ => d - 0x1000 * (1 + rng.below(3)),
+    };
+    cs.push(mk_case(h, l));
+  }
+  cs
+}
+
+fn bin_path(opts: &Opts) -> PathBuf {
+  if let Some(p) = opts.get("bin") { return PathBuf::from(p); }
+  // <work>/target/nojit/release/gbh -> <work>/target/bin/release/gb-dynarec
+  if let Ok(exe) = std::env::current_exe() {
+    if let Some(t) = exe.parent().and_then(|p| p.parent()).and_then(|p| p.parent()) {
+      let p = t.join("bin").join("release").join("gb-dynarec");
+      if p.exists() { return p; }
+    }
+  }
+  PathBuf::from("/verif/.work/target/bin/release/gb-dynarec")
+}
+
+fn work_dir(opts: &Opts) -> PathBuf {
+  if let Some(p) = opts.get("dir") { return PathBuf::from(p); }
+  if let Ok(exe) = std::env::current_exe() {
+    // <work>/target/nojit/release/gbh -> <work>/c19
+    if let Some(t) = exe.parent().and_then(|p| p.parent()).and_then(|p| p.parent()).and_then(|p| p.parent()) {
+      return t.join("c19");
+    }
+  }
+  PathBuf::from("/verif/.work/c19")
+}
+
+fn write_rom(path: &PathBuf, c: &Case) -> std::io::Result<()> {
+  let mut f = std::fs::File::create(path)?;
+  f.set_len(c.len)?;
+  let mut put = |off: u64, data: &[u8]| -> std::io::Result<()> {
+    if off >= c.len { return Ok(()); }
+    let n = ((c.len - off) as usize).min(data.len());
+    f.seek(SeekFrom::Start(off))?;
+    f.write_all(&data[..n])
+  };
+  put(0x100, &c.hdr)?;
+  put(0x150, &probe_code(c.hdr[OFF_TYPE], c.pb))?;
+  put((0x4000 * c.pb + 0x3fff) as u64, &[0x5a])?;
+  Ok(())
+}
+
+fn read_prefix(path: &PathBuf, n: usize) -> Vec<u8> {
+  let mut v = Vec::new();
+  if let Ok(f) = std::fs::File::open(path) { let _ = f.take(n as u64).read_to_end(&mut v); }
+  v
+}
+
+fn find(hay: &[u8], pat: &[u8]) -> bool { hay.windows(pat.len()).any(|w| w == pat) }
+
+/// run the real binary on one case; returns the protocol line
+fn run_case(bin: &PathBuf, dir: &PathBuf, tag: &str, c: &Case, deadline_ms: u64, grace_ms: u64) -> String {
+  let rom = dir.join(format!("{}.gb", tag));
+  let outp = dir.join(format!("{}.out", tag));
+  let errp = dir.join(format!("{}.err", tag));
+  let _ = std::fs::remove_file(&rom);
+  if !c.missing { write_rom(&rom, c).expect("cannot write ROM file under .work/c19"); }
+  let so = std::fs::File::create(&outp).expect("stdout file");
+  let se = std::fs::File::create(&errp).expect("stderr file");
+  let mut cmd = std::process::Command::new(bin);
+  cmd.arg(&rom).stdin(std::process::Stdio::null()).stdout(so).stderr(se).env_remove("RUST_BACKTRACE");
+  let mut child = cmd.spawn().expect("cannot start the gb-dynarec binary (built by the runner: repo_bin)");
+  let start = Instant::now();
+  let mut marker_at: Option<Instant> = None;
+  let status: String;
+  loop {
+    match child.try_wait() {
+      Ok(Some(st)) => {
+        status = if let Some(sig) = st.signal() { format!("sig:{}", sig) }
+                 else { format!("exit:{}", st.code().unwrap_or(-1)) };
+        break;
+      }
+      Ok(None) => {}
+      Err(_) => { status = "exit:-2".to_string(); break; }
+    }
+    let now = Instant::now();
+    if marker_at.is_none() {
+      let o = read_prefix(&outp, 4096);
+      if find(&o, b"K\n") || find(&o, b"No ROM, loading fallback\n") { marker_at = Some(now); }
+    }
+    let done = match marker_at { Some(t) => now.duration_since(t) >= Duration::from_millis(grace_ms), None => false };
+    if done || now.duration_since(start) >= Duration::from_millis(deadline_ms) {
+      let _ = child.kill();
+      let _ = child.wait();
+      status = "alive".to_string();
+      break;
+    }
+    std::thread::sleep(Duration::from_millis(2));
+  }
+  let out = read_prefix(&outp, 160);
+  let err = read_prefix(&errp, 200);
+  let _ = std::fs::remove_file(&rom);
+  let _ = std::fs::remove_file(&outp);
+  let _ = std::fs::remove_file(&errp);
+  format!("c19.file kind={} hdr={} len={} pb={} | out={} err={} status={}",
+    if c.missing { "missing" } else { "file" }, hex(&c.hdr), c.len, c.pb, hex(&out), hex(&err), status)
+}
+
+fn run_file(opts: &Opts, w: &mut dyn Write) {
+  let bin = bin_path(opts);
+  if !bin.exists() {
+    eprintln!("c19.file: {} not found (the runner builds it when the propdef has repo_bin)", bin.display());
+    std::process::exit(3);
+  }
+  let dir = work_dir(opts);
+  std::fs::create_dir_all(&dir).expect("cannot create the scratch directory");
+  // children inherit this: a faulting gb-dynarec leaves no core file (and std can use posix_spawn)
+  unsafe {
+    let z = libc::rlimit { rlim_cur: 0, rlim_max: 0 };
+    libc::setrlimit(libc::RLIMIT_CORE, &z);
+  }
+  let deadline = opts.get_usize("deadline-ms", 4000) as u64;
+  let grace = opts.get_usize("grace-ms", 15) as u64;
+  let pid = std::process::id();
+
+  if let Some(line) = opts.get("replay-line") {
+    let tok = |k: &str| line.split_whitespace().find_map(|t| t.strip_prefix(k)).unwrap_or("").to_string();
+    let v = unhex(&tok("hdr="));
+    if v.len() != 80 { eprintln!("replay line has no 80-byte hdr="); std::process::exit(2); }
+    let mut hdr = [0u8; 80];
+    hdr.copy_from_slice(&v);
+    let c = Case { missing: tok("kind=") == "missing", hdr, len: tok("len=").parse().unwrap_or(0), pb: tok("pb=").parse().unwrap_or(1) };
+    writeln!(w, "{}", run_case(&bin, &dir, &format!("r{}", pid), &c, deadline, grace)).unwrap();
+    return;
+  }
+
+  let mut cases = gen_cases(opts);
+  if let Some(sh) = opts.get("shard") {
+    let p: Vec<usize> = sh.split('/').filter_map(|x| x.parse().ok()).collect();
+    if p.len() == 2 && p[1] > 0 {
+      cases = cases.into_iter().enumerate().filter(|(i, _)| i % p[1] == p[0]).map(|(_, c)| c).collect();
+    }
+  }
+  let cases = Arc::new(cases);
+  let results: Arc<Mutex<Vec<Option<String>>>> = Arc::new(Mutex::new(vec![None; cases.len()]));
+  let next = Arc::new(AtomicUsize::new(0));
+  let nthreads = opts.get_usize("jobs", std::thread::available_parallelism().map(|n| n.get()).unwrap_or(4).min(6));
+  let mut hs = Vec::new();
+  for t in 0..nthreads {
+    let (cases, results, next, bin, dir) = (cases.clone(), results.clone(), next.clone(), bin.clone(), dir.clone());
+    hs.push(std::thread::spawn(move || {
+      loop {
+        let i = next.fetch_add(1, Ordering::SeqCst);
+        if i >= cases.len() { break; }
+        let line = run_case(&bin, &dir, &format!("p{}t{}", pid, t), &cases[i], deadline, grace);
+        results.lock().unwrap()[i] = Some(line);
+      }
+    }));
+  }
+  for h in hs { h.join().expect("worker thread"); }
+  for r in results.lock().unwrap().iter() {
+    writeln!(w, "{}", r.as_ref().expect("missing result")).unwrap();
+  }
+}
+
+pub fn run(sub: &str, opts: &Opts, w: &mut dyn Write) {
+  match sub {
+    "hdr" => run_hdr(opts, w),
+    "file" => run_file(opts, w),
+    _ => {
+      eprintln!("unknown sub-stream c19.{} (hdr | file)", sub);
+      std::process::exit(2);
+    }
+  }
 }
